@@ -1,0 +1,118 @@
+//! Verification hooks. Compiled only with `--cfg p2sh_verif`; with the
+//! guard off none of this code exists.
+#![allow(dead_code)]
+use std::cell::{Cell, RefCell};
+
+thread_local! {
+    static FUEL: Cell<u64> = const { Cell::new(u64::MAX) };
+    static TRACE_MODE: Cell<u8> = const { Cell::new(0) };
+    static TRACE: RefCell<Vec<[u64; 5]>> = const { RefCell::new(Vec::new()) };
+    static ASM: RefCell<Option<Vec<String>>> = const { RefCell::new(None) };
+    static REPL_SCRIPTED: Cell<bool> = const { Cell::new(false) };
+}
+
+/// Limit the number of VM instructions executed on this thread.
+pub fn set_fuel(n: u64) {
+    FUEL.with(|f| f.set(n));
+}
+
+/// 0: off, 1: every instruction, 2: sparse (jumps, calls, returns, pops of constants)
+pub fn set_trace_mode(m: u8) {
+    TRACE_MODE.with(|t| t.set(m));
+    TRACE.with(|t| t.borrow_mut().clear());
+}
+
+pub fn take_trace() -> Vec<[u64; 5]> {
+    TRACE.with(|t| std::mem::take(&mut *t.borrow_mut()))
+}
+
+/// Called at the top of the VM loop, before the instruction executes.
+/// `func` identifies the compiled function of the current frame.
+pub fn step(frames_index: usize, func: usize, ip: usize, op: u8, sp: usize) {
+    FUEL.with(|f| {
+        let left = f.get();
+        if left == 0 {
+            panic!("VERIF_FUEL");
+        }
+        f.set(left - 1);
+    });
+    let mode = TRACE_MODE.with(|t| t.get());
+    if mode == 0 {
+        return;
+    }
+    // sparse mode keeps Constant(0), Pop(1), Jump(15) and call/return opcodes (26..=28)
+    if mode == 2 && !matches!(op, 0 | 1 | 15 | 26 | 27 | 28) {
+        return;
+    }
+    TRACE.with(|t| {
+        t.borrow_mut()
+            .push([frames_index as u64, func as u64, ip as u64, op as u64, sp as u64])
+    });
+}
+
+/// Assembler events (one line of JSON per compiler emission-layer action).
+pub fn asm_start() {
+    ASM.with(|a| *a.borrow_mut() = Some(Vec::new()));
+}
+
+pub fn asm_take() -> Vec<String> {
+    ASM.with(|a| a.borrow_mut().take().unwrap_or_default())
+}
+
+pub fn asm_event(ev: String) {
+    ASM.with(|a| {
+        if let Some(v) = a.borrow_mut().as_mut() {
+            v.push(ev);
+        }
+    });
+}
+
+pub fn asm_enabled() -> bool {
+    ASM.with(|a| a.borrow().is_some())
+}
+
+/// Scripted REPL: when P2SH_VERIF_REPL=1 lines are read from stdin.
+pub fn repl_scripted() -> bool {
+    REPL_SCRIPTED.with(|r| {
+        if r.get() {
+            return true;
+        }
+        let on = std::env::var("P2SH_VERIF_REPL").map(|v| v == "1").unwrap_or(false);
+        r.set(on);
+        on
+    })
+}
+
+/// One REPL input (with the same `\`-continuation rule as the interactive
+/// prompt), preceded by a record separator on stdout and stderr so that a
+/// driver can split the replies. End of input behaves like `quit`.
+pub fn repl_read() -> String {
+    use std::io::{BufRead, Write};
+    print!("\x1e");
+    let _ = std::io::stdout().flush();
+    eprint!("\x1e");
+    let _ = std::io::stderr().flush();
+    let mut input_lines: Vec<String> = Vec::new();
+    loop {
+        let mut buf = String::new();
+        let n = std::io::stdin().lock().read_line(&mut buf).unwrap_or(0);
+        if n == 0 {
+            if input_lines.is_empty() {
+                return "quit".to_string();
+            }
+            break;
+        }
+        let input_line = buf.trim_end_matches(['\n', '\r']).to_string();
+        let is_continuation = input_line.trim_end().ends_with('\\');
+        let cleaned_line = if is_continuation {
+            input_line.trim_end_matches('\\').to_string()
+        } else {
+            input_line
+        };
+        input_lines.push(cleaned_line);
+        if !is_continuation {
+            break;
+        }
+    }
+    input_lines.join("\n")
+}
